@@ -5,14 +5,15 @@
 
     Modelling notes
     * Address: the model value is (type byte, decoded base58/base59 bytes);
-      the C++ keeps the text form. [addr_ok ty bytes] stands for
-      "Address::fromString(EncodeBase58|59(bytes)) succeeds" (length, leading
-      'V', alphabet, multisig m/n rules, sha256 checksum) — external, a
-      Section variable here, the real function in the OCaml driver.
+      the C++ keeps the text form. Validation and normalisation of the text
+      (length, leading 'V', alphabet, multisig m/n rules, sha256 checksum, type
+      derived from the text) is the external function [addr_norm], a Section
+      variable here, the real function in the OCaml driver.
     * MerklePath::subject is not serialised (it is sha256d of the BTC tx and is
       supplied by the caller when decoding): not part of the model value.
     * memoised hashes (hash_) are not part of the value. *)
 From Coq Require Import ZArith List Bool.
+From Coq Require Import Strings.Byte.
 From VB Require Import Gen.Consts Serde.StreamDefs.
 Import ListNotations.
 Local Open Scope Z_scope.
@@ -55,6 +56,19 @@ Definition c_count_fixed32 (mn mx : Z) : codec Z :=
 
 Definition to_unit {A} (_ : A) : unit := tt.
 
+Fixpoint bytes_eqb (a b : list byte) : bool :=
+  match a, b with
+  | [], [] => true
+  | x :: a', y :: b' => Byte.eqb x y && bytes_eqb a' b'
+  | _, _ => false
+  end.
+
+(** what the theorems assume about the external address normalisation: it yields a type byte, at most
+    VBK_ADDRESS_SIZE bytes, and is idempotent (a normalised address is its own normal form) *)
+Definition addr_norm_sound (addr_norm : Z -> list byte -> option (Z * list byte)) : Prop :=
+  forall ty b t' b', addr_norm ty b = Some (t', b') ->
+    0 <= t' < 256 /\ len b' <= VBK_ADDRESS_SIZE /\ addr_norm t' b' = Some (t', b').
+
 (** altblock.cpp: toRaw = toVbkEncoding *)
 Definition c_altblock : codec AltBlock :=
   c_iso (fun b => (ab_hash b, (ab_prev b, (ab_height b, ab_time b))))
@@ -75,13 +89,28 @@ Definition c_authctx : codec AuthenticatedContextInfoContainer :=
     (c_pair c_ctxinfo (c_bytes SHA256_HASH_SIZE)).
 
 Section Entities.
-  Variable addr_ok : Z -> list byte -> bool.
+  (** [addr_norm ty bytes]: the address the C++ ends up with when the wire says (ty, bytes):
+      text := EncodeBase58|59(bytes) by ty; Address::fromString(text) — which derives the type from the TEXT
+      (multisig iff the last character is '0', whatever the wire type byte said) — and then
+      (type, DecodeBase58|59(text) by that type); [None] = rejected. External (sha256, base58/59): a Section
+      variable; the premise the theorems need about it is [addr_norm_sound] below. *)
+  Variable addr_norm : Z -> list byte -> option (Z * list byte).
 
   (** address.cpp: Address::toVbkEncoding / DeserializeFromVbkEncoding(Address) *)
   Definition c_address : codec Address :=
-    c_iso (fun a => (addr_type a, addr_bytes a)) (fun p => mkAddress (fst p) (snd p))
-      (c_refine (c_pair (c_be U8 1) (c_sbl 0 VBK_ADDRESS_SIZE))
-         (fun p => ((fst p =? ADDRESS_TYPE_STANDARD) || (fst p =? ADDRESS_TYPE_MULTISIG)) && addr_ok (fst p) (snd p))).
+    mkCodec (fun a => write_be 1 (addr_type a) ++ write_sbl (addr_bytes a))
+            (fun bs => bind (read_be U8 1 bs) (fun ty r =>
+                       bind (read_sbl 0 VBK_ADDRESS_SIZE r) (fun b r' =>
+                       match addr_norm ty b with
+                       | Some (t', b') => Value (mkAddress t' b') r'
+                       | None => Invalid
+                       end)))
+            (fun a => match addr_norm (addr_type a) (addr_bytes a) with
+                      | Some (t', b') => (t' =? addr_type a) && bytes_eqb b' (addr_bytes a)
+                      | None => false
+                      end)
+            tt_true
+            (fun a => 1 + sbl_size (len (addr_bytes a))).
 
   (** coin.cpp *)
   Definition c_coin : codec Z := c_single_be64.
